@@ -103,6 +103,12 @@ def build_stack(w):
         for k in [k for k, (r, _) in _CALLER_CONFIGS.items() if r() is None]:
             del _CALLER_CONFIGS[k]
         _CALLER_CONFIGS[id(ds)] = (weakref.ref(ds), cfg_objs)
+    elif kind == "mv_over_x":
+        # a seeded multi-view wrapper above an UNSEEDED transform wrapper whose transform is stochastic: the library refuses this stack
+        # (it could not keep sample i a function of the seed) - it must keep refusing it, whatever the apply probability
+        inner = W.XTransformWrapper(base, transform=treg.build(w["t"]), seed=None)
+        ds = W.KDMultiViewWrapper(inner, configs=[(2, treg.build({"k": "KDAdditiveUniformNoise", "a": {"magnitude": 1.0, "magnitude_std": 0.0,
+                                                                                                       "magnitude_min": 0.0}}))], seed=seed)
     elif kind == "xy_shared":
         # one transform object used for input and target with the same seed (consistent augmentation of x and y)
         shared_t = treg.build(w["t"])
@@ -325,6 +331,59 @@ def check_streams_differ(spec):
     return Case(True, [spec["kind"]], len(vals))
 
 
+def _exact(x):
+    """bit-exact fingerprint of a sample (tensors by their bytes)"""
+    import hashlib
+    if torch.is_tensor(x):
+        return hashlib.sha1(x.detach().cpu().contiguous().numpy().tobytes()).hexdigest()[:16] + str(tuple(x.shape))
+    if isinstance(x, (list, tuple)):
+        return [_exact(v) for v in x]
+    if hasattr(x, "tobytes") and hasattr(x, "size"):
+        return hashlib.sha1(x.tobytes()).hexdigest()[:16]
+    return repr(x)
+
+
+def fresh_digests(spec):
+    """fingerprints of all samples of a freshly built seeded stack (run in this process and in newly started interpreters)"""
+    from kappadata.wrappers import ModeWrapper
+    _set_globals(spec["g0"])
+    ds = build_stack(spec["w"])
+    mw = ModeWrapper(ds, mode=item_of(spec["w"]), return_ctx=False)
+    return [_exact(mw[i]) for i in range(len(ds))]
+
+
+def check_fresh_interpreters(spec):
+    """sample i depends on data, configuration, seed and i only - not on the interpreter run: a newly started python process (its own
+    string-hash randomisation, its own import order) must produce bit-identical samples"""
+    import json
+    import os
+    import subprocess
+    import sys
+    try:
+        here = fresh_digests(spec)
+    except AssertionError:
+        raise Refused("constructor assertion")
+    except (ValueError, RuntimeError) as e:
+        if "crop size" in str(e) or "clone() the tensor" in str(e):
+            raise Refused("domain")
+        raise
+    verif = os.path.dirname(os.path.dirname(os.path.abspath(__file__)))
+    repo = os.environ.get("VERIF_REPO", "/repo")
+    code = ("import sys, json; sys.path[:0] = [%r, %r]; import torch; torch.set_num_threads(1); from checks import c08_seeded_wrappers as c; "
+            "print('DIGESTS ' + json.dumps(c.fresh_digests(json.loads(sys.argv[1]))))" % (verif, repo))
+    env = dict(os.environ, PYTHONHASHSEED=str(spec["hashseed"]), OMP_NUM_THREADS="1")
+    r = subprocess.run([sys.executable, "-c", code, json.dumps(spec)], capture_output=True, text=True, env=env, timeout=240)
+    line = next((l for l in r.stdout.splitlines() if l.startswith("DIGESTS ")), None)
+    if line is None:
+        raise Violation("fresh-interpreter-cannot-produce-the-samples", (r.stderr or r.stdout)[-300:])
+    there = json.loads(line[len("DIGESTS "):])
+    if there != here:
+        k = next((i for i in range(min(len(here), len(there))) if here[i] != there[i]), "length")
+        raise Violation(f"sample-differs-between-interpreter-runs:{spec['w']['kind']}", f"index {k} of a seeded {spec['w']['kind']} stack (PYTHONHASHSEED "
+                                                                                          f"{spec['hashseed']} vs this process)")
+    return Case(True, [spec["w"]["kind"]], len(here))
+
+
 # ------------------------------------------------------------------------------------------ strategies
 NOSCHED = treg.img_composite(depth=2, allow_scheduled=False)
 SEMSEG_T = st.lists(st.sampled_from([
@@ -343,7 +402,7 @@ SEMSEG_T = st.lists(st.sampled_from([
 
 @st.composite
 def wrapper_spec(draw, tier):
-    kind = draw(st.sampled_from(["x", "x", "x", "y", "source", "target", "multiview", "multiview", "mix", "mix", "semseg", "semseg", "x_over_mix", "xy_shared",
+    kind = draw(st.sampled_from(["x", "x", "x", "y", "source", "target", "multiview", "multiview", "mix", "mix", "semseg", "semseg", "x_over_mix", "xy_shared", "mv_over_x",
                                  "minaug_x", "minaug_mv"] + (["byol", "mugs"] if tier == "thorough" else [])))
     w = {"kind": kind, "n": draw(st.integers(2, 7)), "key": draw(st.integers(0, 99)), "seed": draw(st.integers(0, 2 ** 31)),
          "pos": draw(st.sampled_from(["top", "under_pass", "over_subset", "under_subset"])),
@@ -357,6 +416,11 @@ def wrapper_spec(draw, tier):
                 for _ in range(draw(st.integers(1, 3)))]
         w["configs"] = cfgs
         w["fam"] = "img3" if any(c["t"] != "plain" and treg.family(c["t"]) == "img3" for c in cfgs) else "img"
+    elif kind == "mv_over_x":
+        name = draw(st.sampled_from(["KDRandomGaussianBlurTV", "KDRandomColorJitter", "KDRandomAdditiveGaussianNoise", "KDRandomSolarize"]))
+        t = draw(treg.leaf_spec(name))
+        t["a"]["p"] = draw(st.sampled_from([1.0, 1.0, 0.5, 0.0]))
+        w["t"], w["fam"], w["pos"] = t, "img3", "top"
     elif kind == "xy_shared":
         w["t"] = draw(NOSCHED)
         w["fam"] = treg.family(w["t"])
@@ -408,6 +472,10 @@ FACETS = [
     Facet("machines", check, strategy=lambda tier: machine_spec(tier),
           budget={"quick": 480, "thorough": 6000}, shards={"quick": 12, "thorough": 16},
           min_nontrivial={"quick": 100, "thorough": 1500}, case_timeout=300),
+    Facet("fresh-interpreters", check_fresh_interpreters,
+          strategy=lambda tier: st.fixed_dictionaries({"w": wrapper_spec(tier).filter(lambda w: w["kind"] not in ("mix", "x_over_mix", "semseg", "xy_shared")),
+                                                       "g0": st.integers(0, 999), "hashseed": st.integers(1, 4000)}),
+          budget={"quick": 48, "thorough": 40}, shards={"quick": 16, "thorough": 16}, min_nontrivial={"quick": 12, "thorough": 60}, case_timeout=300),
     Facet("streams-differ", check_streams_differ,
           strategy=lambda tier: st.fixed_dictionaries({"kind": st.sampled_from(["x", "multiview"]), "n": st.integers(2, 12),
                                                        "seed": st.integers(0, 2 ** 31)}),
